@@ -326,6 +326,14 @@ func (d *duplexHTTPCall) ensureRequestMade() {
 		if d.beforeRequest != nil {
 			d.beforeRequest()
 		}
+		// The header map we were given may be the caller's own (a unary call uses
+		// its Request's), and the transport may go on reading the request's
+		// fields after the call is over - net/http's HTTP/2 transport encodes
+		// the headers on a goroutine that can outlive a RoundTrip cut short by
+		// the context. A caller that then sends the same Request again would
+		// have us write into a map the transport is still reading. Give the
+		// transport a copy of its own.
+		d.request.Header = d.request.Header.Clone()
 		go d.makeRequest()
 	})
 }
